@@ -780,7 +780,7 @@ def run(rep, tier):
     rep.floor("trim cases", trim_rule(rep, u), 6)
     usrv = driver.load_units([common.src_unit("src/proto/http_server.c")])
     rep.use_units(usrv)
-    rep.floor("server framing obligations", server_framing_rules(rep, usrv), 2)
+    rep.floor("server framing obligations", server_framing_rules(rep, usrv), 4)
     count_rule(rep, u)
     rep.floor("method spellings", method_table(rep, u, consts), 14)
     rep.floor("target component searches", span_rule(rep, u), 2)
@@ -850,4 +850,26 @@ def server_framing_rules(rep, us):
         (rep.proved if ok else rep.violated)("R-FRAME", fn, "pointers-rebased-after-realloc", desc, "" if ok else
                                              "io_buf_realloc moves the block; cli->req.hdr / .data / .line.* and cli->buf keep pointing into the freed one: a POST with "
                                              "Content-Length 20000 into the 4 KiB buffer is a heap use-after-free (write at the response set-up, reads in the header lookups)", c.get("ln"))
+    # (c) the body length is 1*DIGIT that fits size_t: no lenient number parser on the Content-Length value
+    LENIENT = ("str2u", "ustr2u", "str2s", "ustr2s", "strtoul", "strtol", "atoi", "atol", "strtoull")
+    n += 1
+    cl_gets = [pos for pos, root, c, ps in fn.calls() if (c.get("fn") or "").startswith("http_hdr_val_get") and any((_str_of(a) or "").lower() == "content-length" for a in c["args"])]
+    len_parsers = [(pos, c) for pos, root, c, ps in fn.calls() if (c.get("fn") or "").startswith(LENIENT) and not (c.get("fn") or "").endswith("_chk") and
+                   any(pos[0] in fn.reach_from([g[0]]) for g in cl_gets)]
+    stores = [pos for pos, root, x, ps in fn.nodes() if x.get("k") == "bin" and x["op"] == "=" and key(strip_casts(x["x"])).endswith("req.data_size") and const_val(x["y"]) != 0]
+    desc = "http_srv_recv_done_cb: the Content-Length value is parsed strictly (digits only, no wrap)"
+    if len_parsers and any(any(y is c_ for y, _ in walk(fn.blocks[s_[0]].elems[s_[1]])) for s_ in stores for p_, c_ in len_parsers):
+        rep.violated("R-FRAME", fn, "content-length-strict", desc, "data_size = %s(...): non-digits are skipped and the value wraps modulo 2^64 - 'Content-Length: 18446744073709551616' is a body "
+                     "of 0 bytes here and the body is parsed as the next request; '4, 4' is 44" % len_parsers[0][1]["fn"], len_parsers[0][1].get("ln"))
+    else:
+        rep.proved("R-FRAME", fn, "content-length-strict", desc, "no lenient number parser feeds req.data_size")
+    # (d) a request with Transfer-Encoding is not framed by this server (it does not decode codings): the field is looked up
+    # before the method switch and leads to an error response
+    n += 1
+    te = [pos for pos, root, c, ps in fn.calls() if (c.get("fn") or "").startswith("http_hdr_val_get") and any((_str_of(a) or "").lower() == "transfer-encoding" for a in c["args"])]
+    ok = any(all(fn.dominates(t_[0], b_) for b_ in sw) for t_ in te)
+    desc = "http_srv_recv_done_cb: a request that carries Transfer-Encoding is refused before its method is looked at"
+    (rep.proved if ok else rep.violated)("R-FRAME", fn, "transfer-encoding-not-ignored", desc, "" if ok else
+                                         "no code path looks at Transfer-Encoding: 'PUT /a .. Transfer-Encoding: chunked' is answered 200 with data_size 0 and its chunked body is parsed "
+                                         "as the next pipelined request")
     return n
